@@ -138,14 +138,26 @@ class FunctionCurveBase(PointCurveBase):
         """Finds the param on curve where point is the closest to given point;
         To improve search speed and reliability, an optional starting
         estimation can be supplied."""
-        param_start = super().get_closest_param(point)
         point = np.array(point)
 
-        result = scipy.optimize.minimize(
-            lambda t: f.norm(self.get_point(t[0]) - point), (param_start,), bounds=(self.bounds,)
+        # a dense scan finds the right neighbourhood (a coarse one can end up in a wrong one) ...
+        params = np.linspace(self.bounds[0], self.bounds[1], num=101)
+        distances = np.array([f.norm(self.function(t) - point) for t in params])
+        i_best = int(np.argmin(distances))
+
+        # ... that is then refined between neighbouring samples; distance is not smooth
+        # at break points of piecewise curves so a gradient-free search is used
+        result = scipy.optimize.minimize_scalar(
+            lambda t: f.norm(self.function(t) - point),
+            bounds=(params[max(i_best - 1, 0)], params[min(i_best + 1, len(params) - 1)]),
+            method="bounded",
+            options={"xatol": 1e-12},
         )
 
-        return result.x[0]
+        if result.fun < distances[i_best]:
+            return float(result.x)
+
+        return float(params[i_best])
 
     def get_point(self, param: float) -> NPPointType:
         self._check_param(param)
